@@ -1020,6 +1020,9 @@ def combinator_model(facts, inner=None, depth=0, field_model=None, callees=None)
                     return V("None", None)
                 return ("s", frozenset([a0, V("None", None)]))
             return None
+        if p.endswith(("Option::as_ref", "Option::as_mut", "Option::as_deref", "Option::cloned", "Option::copied", "Result::as_ref",
+                       "Option::as_deref_mut", "Result::as_mut")) and a0 is not None and a0[0] == "v":
+            return a0
         if p.endswith("Result::map_err"):
             if va == "Ok":
                 return a0
